@@ -836,15 +836,25 @@ func (t *ControllableTask) Kill() error {
 		t.pendingFinalTaskStateCh <- mesos.TASK_KILLED
 	}
 
+	var killErr error
 	if pidExists(pid) {
-		return t.doTermIntKill(pid)
+		killErr = t.doTermIntKill(pid)
 	} else {
 		log.WithField("taskId", t.ti.GetTaskID()).
 			WithField("partition", t.knownEnvironmentId.String()).
 			WithField("detector", t.knownDetector).
 			Debugf("task terminated on its own")
-		return nil
 	}
+
+	// The task process is gone by now, whatever it left behind in its process group must not survive it
+	if pgid != 0 && pidExists(-pgid) {
+		log.WithField("taskId", t.ti.GetTaskID()).
+			WithField("partition", t.knownEnvironmentId.String()).
+			WithField("detector", t.knownDetector).
+			Debug("sending SIGKILL (9) to the remaining processes of the task's process group")
+		_ = syscall.Kill(-pgid, syscall.SIGKILL)
+	}
+	return killErr
 }
 
 func (t *ControllableTask) doKill9(pid int) error {
